@@ -26,9 +26,23 @@ def make_scenarios(ctx, count):
         if i % 3 == 2:
             # sending the Hello takes time (a blocking raw-socket write), the clock moves with every read
             s.add("OPT hellocost=%d clocktick=%d txcost=%d" % (rng.choice([1, 7, 40, 400]), rng.choice([0, 1]), rng.choice([0, 3])))
-        s.add("NOW %d" % rng.choice([1, 1000, 123456, (1 << 32) - 20000, 1 << 40]))
+        now0 = rng.choice([1, 1000, 123456, (1 << 32) - 20000, 1 << 40])
+        s.add("NOW %d" % now0)
         ops = []
         m = 0
+        timed = i % 3 != 2              # no time passes inside port calls: the monitor can follow the clock itself
+        crowd = 0
+        if i % 4 == 1:
+            # a crowded segment: eight to twelve other mappers (or one mapper under as many generations) have sessions with this
+            # station, all of them complete, before the mapper of this history starts enumerating - its session lies far back
+            # in the table
+            crowd = rng.randint(8, 12)
+            others = G.distinct_macs(rng, crowd, avoid=[cfg["mac"]] + net.mappers)
+            for k in range(crowd):
+                src = others[k] if rng.random() < 0.8 else others[0]
+                fr = W.discover(src, 0x100 + k, rng.randint(1, 0xFFFF), [rng.choice(net.strangers), cfg["mac"]], tos=0)
+                s.frame(0, fr, op="W")
+                ops.append(("W", fr[15], fr[17]))
 
         def frame(fr):
             s.frame(0, fr, op="W")
@@ -74,7 +88,7 @@ def make_scenarios(ctx, count):
                 frame(G.f_discover(rng, net, m=m, tos=0, ack=False, nstations=1, gen=rng.choice([1, 3])))
             elif r < 0.2:
                 frame(G.f_probe(rng, net))
-        s.meta = dict(ops=ops)
+        s.meta = dict(ops=ops, now0=now0, timed=timed, crowd=crowd)
         scns.append(s)
     return scns
 
@@ -94,15 +108,49 @@ def monitor(scn, sobj, rep, sf, ck):
     blocks = nontriv_blocks = 0
     seen = set()
     dead = False
+    # the monitor's own view of whether enumeration has to be running: sessions opened by non-acknowledging Discovers and not
+    # yet completed, reset, expired (60 s) or dropped by the 30 s silence rule - kept conservative (shorter limits)
+    clock = sobj.meta.get("now0", 0)
+    timed = sobj.meta.get("timed", False)
+    book = {}
+    book_ok = True
+    last_frame = None
+    r_since = None
+    map_state = 0
+    frames_it = iter([ln for ln in sobj.lines if ln.startswith("W ")])
     for op in ops:
         if dead:
             break
         reps = op[1] if op[0] == "KR" else 1
+        raw = None
+        if op[0] == "W":
+            ln = next(frames_it, None)
+            raw = bytes.fromhex(ln.split(" ")[2]) if ln else None
         for _ in range(reps):
             inp = next(it, None)
             if inp is None or inp.out is None:
                 dead = True
                 break
+            if op[0] == "KR":
+                clock += op[2]
+            if op[0] == "W":
+                last_frame = clock
+                if raw is not None and len(raw) >= 36 and op[2] == W.OP_DISCOVER:
+                    ev = next((x[1] for x in inp.ev if x[0] == "R"), None)
+                    key = (raw[24:30], raw[32:34])
+                    ent = book.setdefault(key, dict(complete=False, last=clock))
+                    ent["last"] = clock
+                    if ev is not None and int(ev) in (3, 5):
+                        ent["complete"] = True
+                elif op[2] == W.OP_RESET:
+                    book.clear()
+                    book_ok = True
+                mm = snap(inp, "M")
+                if mm is not None:
+                    st_now = int(mm[0])
+                    if st_now == 0 and map_state != 0:
+                        book.clear()          # the daemon clears the table when the mapping engine falls back to idle
+                    map_state = st_now
             e = snap(inp, "E")
             if e is None:
                 continue
@@ -164,6 +212,30 @@ def monitor(scn, sobj, rep, sf, ck):
                                   replay=sobj.text())
                 elif prev is not None and prev["state"] == 2 and cur["state"] == 1:
                     seen.add("wait>pausing")
+            # Hellos heard in a running block are folded into the count when the block ends, 300 ms after it began: a tick that
+            # comes 300 ms or more after the per-block counter left zero finds the block over
+            if cur["r"] == 0:
+                r_since = None
+            elif r_since is None:
+                r_since = clock
+            if timed and op[0] == "KR" and r_since is not None and clock >= r_since + 300:
+                must_run = book_ok and last_frame is not None and clock - last_frame < 25000 and \
+                    any(not x["complete"] and clock - x["last"] < 55000 for x in book.values())
+                if must_run:
+                    seen.add("tick-after-a-block-with-hellos-while-an-incomplete-session-is-live")
+                    if sobj.meta.get("crowd"):
+                        seen.add("the-same-beside-eight-or-more-complete-sessions")
+                    rep.violation("C13:history:hellos-heard-but-the-block-does-not-end",
+                                  "scenario %s input %d (%s): %d Hellos counted since t=%d ms, tick at t=%d ms (%d ms later), the mapper's session "
+                                  "is not complete (%d sessions known, %d complete): the block has not ended, the count is still %d, engine state %d"
+                                  % (scn.sid, inp.n, inp.op, cur["r"], r_since, clock, clock - r_since, len(book),
+                                     sum(1 for x in book.values() if x["complete"]), cur["Ni"], cur["state"]), replay=sobj.text())
+                    r_since = None
+            elif timed and op[0] == "KR" and cur["r"] == 0 and prev is not None and prev["r"] > 0:
+                if any(not x["complete"] for x in book.values()):
+                    seen.add("tick-after-a-block-with-hellos-while-an-incomplete-session-is-live")
+                    if sobj.meta.get("crowd"):
+                        seen.add("the-same-beside-eight-or-more-complete-sessions")
             prev = cur
     rep.evaluations += blocks
     rep.count("history_block_ends", blocks)
@@ -188,5 +260,7 @@ def run(ctx):
     c = rep.counters
     rep.need("history_block_ends", c.get("history_block_ends", 0), 2000)
     rep.need("history_block_ends_with_formula", c.get("history_block_ends_with_formula", 0), 500)
+    for name in ("tick-after-a-block-with-hellos-while-an-incomplete-session-is-live", "the-same-beside-eight-or-more-complete-sessions"):
+        rep.need(name, c.get("reach:" + name, 0), 20)
     for name in ("wait>pausing", "formula-applied", "saturated", "no-update:nothing-heard", "own-hello-inside-a-block-with-hellos-heard"):
         rep.need(name, c.get("reach:" + name, 0), 20)
